@@ -144,7 +144,10 @@ def plan_C04(b, tier, seed):
         t += [B_curve(b, c, seed, 150, "mul") for c in BIG_CURVES]
         t += [B_curve(b, c, seed, 80, "mul") for c in ("c_bn254_g1", "c_bls12_377_g1", "c_bls12_381_g1", "c_pallas", "c_vesta", "c_secp256k1", "c_bw6_761_g1", "c_ed_on_bls12_381_bandersnatch_te")]
         t += [B_curve(b, c, seed, 140, "aux") for c in GLV_CURVES]
+        # fixed-base batch multiplication for 1..1025 scalars with fresh and mis-sized tables (batch_mul events of the msm profile)
+        t += [B_curve(b, c, seed + 5, 45, "msm") for c in ("bls12_381_g1", "ed_on_bls12_381", "secp256k1")]
     else:
+        t += [B_curve(b, c, seed + 5 + k, 300, "msm", 3000) for c in BIG_CURVES for k in range(2)]
         t += [B_curve(b, c, seed + k, 900, "aux", 3000) for c in GLV_CURVES for k in range(2)]
         t += [B_curve(b, c, seed + k, 1500, "mul", 3000) for c in BIG_CURVES for k in range(2)]
         t += [B_curve(b, c, seed, 400, "mul", 3000) for c in CURVE_CRATE_CURVES]
@@ -364,7 +367,7 @@ RULES = {
  "C08": "A: PolyMachine over toy prime fields: all ordered pairs of polynomials of degree < DEG x add/sub/mul/div/scaled add/eq in every dense/sparse mix and API variant (operators by value/reference, assign forms, naive and FFT products, the four divide_with_q_and_r mixes); every polynomial x scaling, evaluation, canonical-form conversions, vanishing-polynomial mul/div and evaluate_over_domain / interpolate over every small domain and coset (radix-2, mixed-radix, general), including polynomials longer than the domain; patterned polynomials of 15..130 coefficients (thorough 1030) x evaluation, linear operations, products and quotients with small and large operands. Results are compared as STORED coefficient vectors, so non-canonical results are visible. non-trivial = register changed or a non-zero value returned",
  "C07": "A: every constructible domain up to MAXN over fields with two-adicity 2..13 and small subgroups 3^k / 5^k: construction for every request 0..MAXN+1 and around the largest subgroup (all three kinds; minimal admissible size or none), generator order, element(i) for all i, elements(), FFT of every unit vector / all-ones / dense vector for EVERY input length 0..n, IFFT, vanishing polynomial and all Lagrange coefficients at every field element (p <= 31) or at in-domain and off-domain samples; four coset offsets; B: full-size domains (Trace_Poly): construction requests around every power of two up to 2^12 (thorough 2^13) and mixed sizes 2^a 3^b over BLS12-381 Fr, BN384 Fq (3^2), secp256k1 Fr (two-adicity 6, falls back to mixed radix), Fp128: FFT / IFFT / coset FFT of random and short vectors, evaluate_over_domain, interpolate, element tables, vanishing polynomials and all Lagrange coefficients (on and off the domain), decided by DftIdentity / LagrangeClosed at a random 250-bit point",
  "C03": "A: every transition of CurveMachine over toy curves (all ordered pairs of ALL points of the curve - prime-order subgroup for incomplete Edwards curves - x add/sub/eq/sum/batch-normalise; all points x double/negate/conversions), replayed through every projective rescaling of the operands (all of F_q^* for q = 13, 12 spread values otherwise) and every API variant (proj+proj, mixed, affine+affine, iterator sums). B: seeded programs on shipped curves with randomly rescaled registers; raw Jacobian / extended coordinates decoded by the specification. non-trivial = abstract register changed or a value returned",
- "C04": "A: every (k, P) with k in 0..2r+2 and P any point of a toy curve, through mul_bigint (with leading zero limbs), affine mul_bigint, bit streams (with/without leading zeros), scalar-field multiplication, w-NAF w=2..6 with fresh / precomputed / too-short tables, batch_mul for 1,2,31,32,33 scalars and three table sizings. B: boundary scalars (0,1,r-1,r,r+1,2^64-1,2^64N-1,random) on shipped curves, spec computes k.P by its own double-and-add; on the 11 configurations that ship GLV parameters: scalar_decomposition as the relation k = +-k1 +- lambda k2 (mod r) with both halves short, glv_mul_projective / glv_mul_affine on subgroup points vs k.P",
+ "C04": "A: every (k, P) with k in 0..2r+2 and P any point of a toy curve, through mul_bigint (with leading zero limbs), affine mul_bigint, bit streams (with/without leading zeros), scalar-field multiplication, w-NAF w=2..6 with fresh / precomputed / too-short tables, batch_mul for 1,2,31,32,33 scalars and three table sizings. B: boundary scalars (0,1,r-1,r,r+1,2^64-1,2^64N-1,random) on shipped curves, spec computes k.P by its own double-and-add; on the 11 configurations that ship GLV parameters: scalar_decomposition as the relation k = +-k1 +- lambda k2 (mod r) with both halves short, glv_mul_projective / glv_mul_affine on subgroup points vs k.P; fixed-base batch_mul of 1..1025 full-size scalars with fresh tables and tables sized for another number of scalars, folded into one linear combination",
  "C12": "A: all points of toy curves with cofactor 1,2,3,4,6,8 (so mostly outside the subgroup): subgroup test vs r.P = O, clear_cofactor vs h.P, mul_by_cofactor, mul_by_cofactor_inv on the subgroup. B: shipped curves with points from arbitrary coordinates; clear_cofactor vs the standardised effective cofactor (BLS12-381 G1: 1-x, G2: h2(3x^2-3)), endomorphism-based subgroup tests vs the definition; UniformRand of affine and projective points only yields points with r.P = O",
  "C15": "A: BigIntMachine over the limb-boundary alphabet (NL<=2: all limb combinations from {0,1,2,2^31,2^63-1,2^63,2^64-2,2^64-1}; larger NL: one special limb, others 0 or all-ones): all ordered pairs x binary operations, every value x unary operations / shifts {0,1,63,64,65,127,128,64N-1,64N,64N+1,64N+64} / conversions / w-NAF for w in {0,1,2,3,4,5,8,16,20,64}; every transition replayed on ark_ff::BigInt<N> through every API variant. B: seeded boundary-biased programs for N in {1,2,3,4,6,12,13} validated by TLC (relaxed NAF as a relation). non-trivial = register changed or a non-zero/true flag or value returned",
  "C01": "A: every transition of FieldMachine over the listed toy prime fields (all operand tuples x all actions; both the derive-macro and the hand-written trait-default configuration) replayed through every API variant; B: seeded random+boundary programs on shipped fields and the moduli zoo validated by TLC over BigNat, incl. decimal strings (FromStr / Display: numerals of integers below, at and far above p, negative, and the canonical numeral back); the same traces recorded from a third build with ark-ff's x86-64 assembly backend (feature asm, 2..6 limbs). non-trivial = result differs from the operands and from 0/1, counted per distinct (operands, event)",
